@@ -99,9 +99,84 @@ func ruleErrFlow(c *Ctx) {
 					continue
 				}
 			}
+			if !ok {
+				if reason := c.probeExcused(fd); reason != "" {
+					c.ob(rule, key, s.call.Pos(), true, "")
+					c.note("errflow exception %s: %s", key, reason)
+					continue
+				}
+			}
 			c.ob(rule, key, s.call.Pos(), ok, why)
 		}
 	}
+}
+
+// probeExcused: fd is a probe - an unexported function without an error result whose single, nil-able result
+// stands for "found or not": its failures are reported as a nil result, and every caller in the package tests
+// that result against nil before using it. Errors may be dropped inside such a function.
+func (c *Ctx) probeExcused(fd *ast.FuncDecl) string {
+	self, _ := c.Info.Defs[fd.Name].(*types.Func)
+	if self == nil || self.Exported() {
+		return ""
+	}
+	sig := self.Type().(*types.Signature)
+	if sig.Results().Len() != 1 || isErrorType(sig.Results().At(0).Type()) {
+		return ""
+	}
+	switch types.Unalias(sig.Results().At(0).Type()).Underlying().(type) {
+	case *types.Interface, *types.Pointer, *types.Map, *types.Slice:
+	default:
+		return ""
+	}
+	sites, tested := 0, 0
+	for _, g := range c.allFuncDecls() {
+		if g.Body == nil {
+			continue
+		}
+		ast.Inspect(g.Body, func(n ast.Node) bool {
+			as, ok := n.(*ast.AssignStmt)
+			if !ok || len(as.Rhs) != 1 || len(as.Lhs) != 1 {
+				if call, isCall := n.(*ast.CallExpr); isCall && c.callee(call) == self {
+					// counted below when it is the right-hand side of an assignment; any other use is untested
+					sites++
+				}
+				return true
+			}
+			call, ok := unparen(as.Rhs[0]).(*ast.CallExpr)
+			if !ok || c.callee(call) != self {
+				return true
+			}
+			sites-- // compensates the generic count of the call expression visited next
+			sites++
+			id, ok := as.Lhs[0].(*ast.Ident)
+			if !ok {
+				return true
+			}
+			v := c.objOf(id)
+			nilTested := false
+			ast.Inspect(g.Body, func(m ast.Node) bool {
+				be, ok := m.(*ast.BinaryExpr)
+				if !ok || be.Op != token.NEQ && be.Op != token.EQL {
+					return true
+				}
+				for _, pr := range [][2]ast.Expr{{be.X, be.Y}, {be.Y, be.X}} {
+					if x, ok := unparen(pr[0]).(*ast.Ident); ok && c.objOf(x) == v && isNilIdent(c, pr[1]) {
+						nilTested = true
+					}
+				}
+				return true
+			})
+			if nilTested {
+				tested++
+			}
+			return true
+		})
+	}
+	// every call expression was counted once by the generic branch; those that are tested assignments count in `tested`
+	if sites > 0 && tested == sites {
+		return "probe without an error result: its failures surface as a nil result, which every caller tests"
+	}
+	return ""
 }
 
 func ruleSingleDecision(c *Ctx) {
